@@ -2,7 +2,7 @@
    This file contains the property theorems and nothing else; each is closed by `exact` of a lemma
    proved in Proofs/, and its axioms are printed beneath it. *)
 From Coq Require Import List NArith ZArith.
-From FFSM2 Require Import Model.Bits Model.BitStream Proofs.BitsProofs Proofs.BitStreamProofs Model.Cxx Generated.LeafCode Proofs.LeafTactics Proofs.LeafLoops Proofs.LeafCodeBits Proofs.LeafCodeStream Proofs.LeafCodeWide Proofs.LeafCodeBuffer.
+From FFSM2 Require Import Model.Bits Model.BitStream Proofs.BitsProofs Proofs.BitStreamProofs Model.Cxx Generated.LeafCode Proofs.LeafTactics Proofs.LeafLoops Proofs.LeafCodeBits Proofs.LeafCodeStream Proofs.LeafCodeWide Proofs.LeafCodeFields Proofs.LeafCodeBuffer.
 Import ListNotations.
 Local Open Scope N_scope.
 
@@ -105,6 +105,16 @@ Theorem C13_source_read32_is_the_model : forall W c buf,
   = let '(v, c') := read buf c W in Some (Some (Z.of_N v), cursor_fld c', stream_obj buf).
 Proof. exact src_read32. Qed.
 Print Assumptions C13_source_read32_is_the_model.
+
+(* End to end through the translated code only: any sequence of fields (widths 1..32, each call dispatched to the item type UBitWidth<W> selects) that fits
+   a stream of 1..255 bits, written by running the translated write<W> bodies one after the other into a cleared buffer and read back by running the
+   translated read<W> bodies, returns the values written; the cursor ends at the sum of the widths.  No run faults. *)
+Theorem C13_source_sequence_roundtrip : forall fs bits,
+  fields_ok fs -> 1 <= bits <= 255 -> total_width fs <= bits ->
+  exists buf', src_write_fields (0, buffer_clear bits) fs = Some (total_width fs, buf') /\
+               src_read_fields 0 buf' (map fst fs) = Some (map snd fs, total_width fs).
+Proof. exact src_fields_roundtrip. Qed.
+Print Assumptions C13_source_sequence_roundtrip.
 
 (* StreamBufferT<N>: the buffer has ceil(N / 8) bytes, and its comparison operators are byte-wise equality over all of them. *)
 Theorem C13_source_buffer_size_is_the_model : forall bits : Z, (1 <= bits <= 255)%Z ->
